@@ -325,6 +325,77 @@ def r04_10(prog: Program, rep):
         raise AnalysisError(f"expected >= 2 mkstemp-based ingestion routines in object_store.py, found {n}")
 
 
+def r04_11(prog: Program, rep):
+    """Sentinel scans end at end of input.  A loop that takes one byte at a time from a stream until it sees a sentinel
+    must leave the loop when the read comes back EMPTY (explicit test with raise / break / return on the empty side) or use
+    the byte in a way that raises on b"" (ord(..), x[0]); otherwise a truncated file makes it spin forever."""
+    n = 0
+    for rel in ("dulwich/index.py", PACK):
+        m = prog.module(rel)
+        for q, f in sorted(m.funcs.items()):
+            for w in [x for x in ast.walk(f.node) if isinstance(x, ast.While) and m.enclosing_func(x) is f]:
+                reads = []
+                for x in ast.walk(w):
+                    tgt = val = None
+                    if isinstance(x, ast.Assign) and isinstance(x.targets[0], ast.Name):
+                        tgt, val = x.targets[0].id, x.value
+                    elif isinstance(x, ast.NamedExpr) and isinstance(x.target, ast.Name):
+                        tgt, val = x.target.id, x.value
+                    if tgt and isinstance(val, ast.Call) and ((isinstance(val.func, ast.Attribute) and val.func.attr == "read") or
+                                                              (isinstance(val.func, ast.Name) and val.func.id in ("read", "read_all", "read_some"))) \
+                            and val.args and isinstance(val.args[0], ast.Constant) and val.args[0].value == 1:
+                        reads.append((tgt, x))
+                for v, site in reads:
+                    n += 1
+                    # (a) an emptiness test of v whose empty side leaves the loop
+                    ok = False
+                    for t in [t for t in ast.walk(w) if isinstance(t, ast.If)]:
+                        e = t.test
+                        neg = isinstance(e, ast.UnaryOp) and isinstance(e.op, ast.Not) and isinstance(e.operand, ast.Name) and e.operand.id == v
+                        pos = isinstance(e, ast.Name) and e.id == v
+                        eq = isinstance(e, ast.Compare) and len(e.ops) == 1 and isinstance(e.ops[0], ast.Eq) and isinstance(e.left, ast.Name) and e.left.id == v \
+                            and isinstance(e.comparators[0], ast.Constant) and e.comparators[0].value in (b"", "")
+                        ln = "len(" in norm(e) and v in norm(e)
+                        arm = t.body if (neg or eq or ln) else t.orelse if pos else None
+                        if arm is not None and any(isinstance(s_, (ast.Raise, ast.Break, ast.Return)) for s_ in arm):
+                            ok = True
+                    # (b) a use that raises on an empty read
+                    if not ok:
+                        ok = any(isinstance(c, ast.Call) and isinstance(c.func, ast.Name) and c.func.id == "ord" and any(isinstance(y, ast.Name) and y.id == v for y in ast.walk(c))
+                                 for c in ast.walk(w)) or \
+                            any(isinstance(sb, ast.Subscript) and isinstance(sb.value, ast.Name) and sb.value.id == v and not isinstance(sb.slice, ast.Slice) for sb in ast.walk(w))
+                    rep.ob("R04.11", rel, q, f"the byte-wise scan `{norm(site, 40)}` ends at end of input", ok,
+                           "the loop has no exit for an empty read: on a file truncated inside the scanned field it never terminates", site.lineno)
+    if n < 3:      # 3 on the pinned original tree, 4 since the index v4 varint repair
+        raise AnalysisError(f"expected >= 3 byte-wise stream scans in index.py / pack.py, found {n}")
+
+
+def r04_12(prog: Program, rep):
+    """A pack is visible only as a PAIR: the directory scan of the disk store opens <base> only when both <base>.pack and
+    <base>.idx are present (the rollback of a rejected pack removes them one after the other)."""
+    m = prog.module(OS_PY)
+    f = m.funcs.get("DiskObjectStore._update_pack_cache")
+    if f is None:
+        raise AnalysisError("DiskObjectStore._update_pack_cache not found")
+    consts = set()
+    conds = []
+    for x in ast.walk(f.node):
+        if isinstance(x, ast.If):
+            conds.append(x.test)
+        elif isinstance(x, ast.comprehension):
+            conds.extend(x.ifs)
+    for t in conds:
+        for y in ast.walk(t):
+            if isinstance(y, ast.Constant) and isinstance(y.value, str) and y.value in (".pack", ".idx"):
+                # how it is used: endswith (suffix filter) or as part of a membership test
+                consts.add(y.value)
+    memb = any(isinstance(y, ast.Compare) and isinstance(y.ops[0], ast.In) and any(isinstance(z, ast.Constant) and z.value in (".idx", ".pack") for z in ast.walk(y.left))
+               for t in conds for y in ast.walk(t))
+    rep.ob("R04.12", OS_PY, f.qual, "a pack is opened only when both its .pack and its .idx are in the directory listing", consts == {".pack", ".idx"} and memb,
+           f"the scan filters on {sorted(consts)} only: while a rejected pack is rolled back (or when removing one of the two files fails) the "
+           f"objects of the orphaned file become visible", f.node.lineno)
+
+
 def r04_5(prog: Program, rep):
     n = 0
     for m in prog.modules.values():
@@ -465,7 +536,7 @@ def r04_8(prog: Program, rep):
     cs = prog.func(PACK, "SHA1Reader.check_sha")
     src = norm(cs.node, 100000)
     rep.ob("R04.8", PACK, cs.qual, "check_sha compares the stored with the computed digest and raises ChecksumMismatch",
-           "ChecksumMismatch" in src and "!=" in src, "", cs.node.lineno)
+           "ChecksumMismatch" in src and any(isinstance(x, ast.Compare) and "digest()" in norm(x) for x in ast.walk(cs.node)), "", cs.node.lineno)
     for rn in ("read_packed_refs", "read_packed_refs_with_peeled"):
         f = prog.func("dulwich/refs.py", rn)
         ys = [y for y in ast.walk(f.node) if isinstance(y, ast.Yield)]
@@ -494,6 +565,8 @@ def run(prog: Program, rep, tier="quick"):
     rep.rule("R04.5", "every decompress call passes an output bound; zlib chunk readers agree; ofs base offset zero-checked")
     rep.rule("R04.6", "object names in indexes come from hashing content")
     rep.rule("R04.7", "delta-chain walk is cycle guarded")
+    rep.rule("R04.11", "byte-wise sentinel scans over a stream have an exit for the empty read (truncated input terminates)")
+    rep.rule("R04.12", "the pack directory scan opens a pack only as a .pack/.idx pair")
     rep.rule("R04.10", "RELEASE-ON-EXIT for temporary pack files: removed on every exceptional exit of the ingestion routine / commit closure")
     rep.rule("R04.9", "input-size cap: every read callable handed on by _bound_read_callables counts what it reads")
     rep.rule("R04.8", "stored checksums are verified on read")
@@ -520,8 +593,14 @@ def run(prog: Program, rep, tier="quick"):
         raise AnalysisError("R04.8: the packed-refs cache obligation was not produced")
     r04_9(prog, rep)
     r04_10(prog, rep)
+    r04_11(prog, rep)
+    r04_12(prog, rep)
     from sa.common import alias_guard
     alias_guard(prog, rep, "R04.2", {"add_pack"})
+    from sa.common import share as _share
+    from rules import c11 as _c11
+    _share(rep, lambda: _c11.r11_7(prog, rep), "R04.13", lambda o: True,
+           "a truncated or altered index trailer is rejected (shared with R11.7): the acceptance predicate of SHA1Reader.check_sha over a finite abstraction")
     rep.floor("R04.1", 4)
     rep.floor("R04.2", 4)
     rep.floor("R04.3", 1)
